@@ -284,24 +284,38 @@ func c15Waiters(w *W) {
 			acancel()
 		})
 	}
+	// the context the background work is launched with is not the one the
+	// waiter uses: it may end while the work (which ignores it) is still
+	// running. The waiter, called with a live context, still has to wait.
+	lctx, lcancel := context.WithCancel(w.Ctx)
+	launchCancelledAt := int64(0)
+	if simrt.Choose(3) == 0 {
+		at := simrt.Choose(30)
+		simrt.Spawn("fault:cancel-launch-context", func() {
+			simrt.WaitStep(at)
+			launchCancelledAt = h.Tick()
+			lcancel()
+		})
+		w.Fault("launch-context-cancelled")
+	}
 	simrt.Spawn("starter:"+names[kind], func() {
 		ctx := w.Ctx
 		switch kind {
 		case 0:
-			ch := fun.Operation(func(context.Context) { p.body() }).Signal(ctx)
+			ch := fun.Operation(func(context.Context) { p.body() }).Signal(lctx)
 			hrecv(ch)
 		case 1:
-			wait := fun.Operation(func(context.Context) { p.body() }).Launch(ctx)
+			wait := fun.Operation(func(context.Context) { p.body() }).Launch(lctx)
 			_ = callWaiter(ctx, func(c context.Context) error { wait(c); return nil })
 		case 2:
-			ch := fun.Worker(func(context.Context) error { p.body(); return errPlanned }).Signal(ctx)
+			ch := fun.Worker(func(context.Context) error { p.body(); return errPlanned }).Signal(lctx)
 			got, _ = hrecv(ch)
 		case 3:
-			wait := fun.Worker(func(context.Context) error { p.body(); return errPlanned }).Launch(ctx)
+			wait := fun.Worker(func(context.Context) error { p.body(); return errPlanned }).Launch(lctx)
 			got = callWaiter(ctx, wait)
 		case 4:
 			var seen []error
-			wait := fun.Worker(func(context.Context) error { p.body(); return errPlanned }).Background(ctx, func(err error) { seen = append(seen, err) })
+			wait := fun.Worker(func(context.Context) error { p.body(); return errPlanned }).Background(lctx, func(err error) { seen = append(seen, err) })
 			_ = callWaiter(ctx, func(c context.Context) error { wait(c); return nil })
 			for _, e := range seen {
 				if errors.Is(e, errPlanned) {
@@ -309,14 +323,14 @@ func c15Waiters(w *W) {
 				}
 			}
 		case 5:
-			wait := fun.Worker(func(context.Context) error { p.body(); return errPlanned }).StartGroup(ctx, n)
+			wait := fun.Worker(func(context.Context) error { p.body(); return errPlanned }).StartGroup(lctx, n)
 			got = callWaiter(ctx, wait)
 		case 6:
 			wg := &fun.WaitGroup{}
-			fun.Operation(func(context.Context) { p.body() }).StartGroup(ctx, wg, n)
+			fun.Operation(func(context.Context) { p.body() }).StartGroup(lctx, wg, n)
 			wg.Wait(ctx)
 		case 7:
-			wait := fun.Processor[int](func(context.Context, int) error { p.body(); return errPlanned }).Background(ctx, 1)
+			wait := fun.Processor[int](func(context.Context, int) error { p.body(); return errPlanned }).Background(lctx, 1)
 			got = callWaiter(ctx, wait)
 		}
 		waitRet = h.Tick()
@@ -356,9 +370,12 @@ func c15Waiters(w *W) {
 			break
 		}
 	}
+	// (the result travels to the waiter under the launch context: when that
+	// ended before the work finished, the error may legitimately not arrive)
+	resultCanTravel := launchCancelledAt == 0
 	switch kind {
 	case 2, 3, 4, 5, 7:
-		if !errors.Is(got, errPlanned) {
+		if resultCanTravel && !errors.Is(got, errPlanned) {
 			w.Violate("waiter-lost-error", "waiter-lost-error:"+name, "%s: the background function returned %v but the waiter observed %v", name, errPlanned, got)
 		}
 	}
